@@ -44,7 +44,9 @@ package dlnproof
 //@   props C06 C10
 //@   requires h1 != nil && h2 != nil && x != nil && p != nil && q != nil && N != nil && rand != nil
 //@   requires [honest-parameters] val(p) > 0 && val(q) > 0 && val(N) > 0 && val(x) >= 0 && val(h1) >= 0 && bitlen(val(p)) <= 2100 && bitlen(val(q)) <= 2100
-//@   ensures result != nil && fresh(result) && wfDLN(result)
+//@   ensures result != nil && fresh(result)
+//@   ensures forall k in 0..128 :: (result.Alpha[k] != nil && val(result.Alpha[k]) >= 0)
+//@   ensures forall k in 0..128 :: (result.T[k] != nil && val(result.T[k]) >= 0)
 //@   loop 0 invariant fresh(a) && len(a) == 128 && pMulQ != nil && val(pMulQ) > 0 && modN != nil && val(modN) == val(N) && modPQ != nil && val(modPQ) == val(pMulQ)
 //@   loop 0 invariant forall k in 0..$iter :: (a[k] != nil && val(a[k]) >= 0 && alpha[k] != nil && val(alpha[k]) >= 0)
 //@   loop 1 invariant fresh(a) && len(a) == 128 && pMulQ != nil && val(pMulQ) > 0 && modN != nil && modPQ != nil && val(modPQ) == val(pMulQ) && c != nil && val(c) >= 0 && cIBI != nil && fresh(cIBI) && cIBI != pMulQ && cIBI != c && cIBI != x
